@@ -58,16 +58,40 @@ def install_net(E):
     stubs.doc("net / netip (C03)", install_net.__doc__)
 
 
+def native_feasible(E):
+    """side conditions under which the datagrams of a counterexample can be sent through loopback sockets"""
+    cs = []
+    for nm, inp in E.inputs.items():
+        base = nm.split("@")[0]
+        t = inp["term"]
+        k = int(nm.split("@")[1]) if "@" in nm else 0
+        if base in ("dg.readerr", "write.fails", "listen.fails"):
+            cs.append(z3.Not(t))
+        elif base == "dg.flags":
+            cs.append(t == 0)
+        elif base in ("dg.src.ip", "remote.ip"):
+            if k % 4 == 0:
+                cs.append(t == 127)
+            elif k % 4 == 3:
+                cs.append(z3.And(z3.UGE(t, 2), z3.ULE(t, 250)))
+        elif base == "remote.port":
+            cs.append(z3.And(z3.UGE(t, 20000), z3.ULE(t, 60000)))
+    return cs
+
+
 NETIP_GLOBALS = ["net/netip.z0", "net/netip.z4", "net/netip.z6noz"]
 ENGINE_CFG = {"time_mode": "ns64", "time_sub_unchecked": True, "opaque_globals": NETIP_GLOBALS + [P + "ipMetrics"], "str_bound": 16, "default_unwind": 6,
               "unwind": {P + "(*IPClient).measureClockOffsetIP": 3}}
 INSTALL = [sched.install, install_net, summaries.install_time64_summary, summaries.install_timefrom64_summary]
 HARNESSES = [
     {"name": "formula", "fn": P + "VerifC03Formula", "cfg": {"time_mode": "ns64"}, "install": [], "bounds": "instants, offsets and delays below 2^58 ns"},
-    {"name": "exchange_basic", "fn": P + "VerifC03ExchangeBasic", "bounds": "one exchange of a client without interleaved mode; up to 3 arbitrary datagrams of 0..48 bytes from arbitrary sources, arbitrary kernel stamps / clock readings / I/O failures"},
-    {"name": "exchange_interleaved", "fn": P + "VerifC03ExchangeInterleaved", "bounds": "one exchange from an arbitrary previous-exchange state in interleaved mode; same adversary"},
+    {"name": "exchange_basic", "fn": P + "VerifC03ExchangeBasic", "native_feasible": native_feasible, "bounds": "one exchange of a client without interleaved mode; up to 3 arbitrary datagrams of 0..48 bytes from arbitrary sources, arbitrary kernel stamps / clock readings / I/O failures"},
+    {"name": "exchange_interleaved", "fn": P + "VerifC03ExchangeInterleaved", "native_feasible": native_feasible, "bounds": "one exchange from an arbitrary previous-exchange state in interleaved mode; same adversary"},
 ]
 ASSUMPTIONS = ["sockets, kernel timestamps and the clock are adversarial functions written in the harness (arbitrary datagrams, sources, flags, errors, stamps)",
                "NTS disabled (C10/C11 cover the NTS processing); IPv4 addresses; instants inside NTP era 0; SCION client not covered",
-               "Time64FromTime summary (see C06); counterexamples that involve the socket adversary cannot be replayed through real sockets and are reported as inconclusive"]
+               "Time64FromTime summary (see C06); native replay uses real loopback sockets: for C05 obligations a scripted peer sends the counterexample's datagrams (echoed stamps renamed to the real request's) and success must be based on an acceptable one; for C03 obligations a conformant server whose clock is 2.5 s ahead answers four exchanges and the reported offset must be within 20 ms of 2.5 s"]
 EXPLANATION = ""
+CLAIMED = True
+LEVEL_TEXT = "Bounded model checking of the real IP client exchange (measureClockOffsetIP) against an adversarial socket, kernel and clock written in the harness: up to 3 arbitrary datagrams from arbitrary sources, arbitrary I/O failures, stamps and an arbitrary previous-exchange state (inductive step for interleaved mode): on success the offset is the NTP formula over four stamps that belong to one exchange (basic: this one; interleaved: the previous one with this response's transmit stamp), the state records this exchange; plus the NTP formulas against ground truth (offset within half the round-trip delay of the true offset for arbitrary path delays)."
+LEVEL_NOTE = "IP client only (SCION client not built), NTS disabled, IPv4, instants inside NTP era 0, conversions by the C04 summaries; the clock and stamps of one exchange come from one non-decreasing source (a kernel stamp behind the clock makes the real code panic: recorded observation); native replay as described in the assumptions."
